@@ -150,3 +150,25 @@ def x6(cx: Cx, ob: Ob) -> None:
     from .c02 import none_scope
 
     scan_none_discipline(cx, ob, none_scope(cx))
+
+
+@obligation("C03-X8", "the Record model stores prefixes and URI prefixes verbatim: no pydantic string transformation (strip / case folding / length limits) in its model_config or field declarations", floor=1)
+def x8(cx: Cx, ob: Ob) -> None:
+    from ..rules import record_verbatim
+
+    record_verbatim(cx, ob)
+
+
+@obligation("C03-X4", "uniqueness precondition (shared with C04): compress and expand_all agree on the record only if no name is claimed twice - the strict constructor runs both duplicate detectors over all unordered pairs of records", floor=4)
+def x4(cx: Cx, ob: Ob) -> None:
+    from .c04 import d1 as c04_order, d2 as c04_matrix
+
+    c04_order(cx, ob)
+    c04_matrix(cx, ob)
+
+
+@obligation("C03-X10", "Converter.__init__ reads its (Iterable, possibly one-shot) `records` argument only through one materialising call (sorted/list) and keeps that fresh list - never the caller's list object, never sorted in place", floor=2)
+def x10(cx: Cx, ob: Ob) -> None:
+    from ..rules import constructor_owns_records
+
+    constructor_owns_records(cx, ob)
